@@ -87,7 +87,8 @@ CLAIMED = {
             "Backend hits); (b) results of functools.lru_cache'd helper grids are never updated in place by their callers "
             "(frame obligations on every verified caller); (c) declared shapes of lazy arrays equal computed shapes: "
             "construct_landscape (all four models, single- and multi-candidate, any search range / scale / up-sampling factor) and "
-            "construct_loading_tasks; landscape task i gets sub-volume i, position i and orientation i.",
+            "construct_loading_tasks; landscape task i gets sub-volume i, position i and orientation i; (d) prepare_affine "
+            "hands the interpolation the tomogram window for every array, numpy or dask, however chunked.",
             NOTE + "Thread interleavings themselves are not explored (no concurrency in this technique): the argument is "
             "'tasks only read shared state'. dask's scheduler, chunking of the tomogram and the numpy/dask equivalence of "
             "array operations are trusted library contracts; the global default backend is not under contract; "
